@@ -182,6 +182,16 @@ where
     async fn listen(&mut self) -> io::Result<Option<Box<dyn http_codec::Stream>>> {
         loop {
             let wait_read = async {
+                if let State::WaitingRequest(x) = &mut self.state {
+                    if !x.buffer.is_empty() {
+                        // a partial request head is kept: wait for the rest of it instead of
+                        // parsing the same bytes over and over
+                        if self.transport_stream.read_buf(&mut x.buffer).await? == 0 {
+                            // closed in the middle of the request head
+                            x.buffer.clear();
+                        }
+                    }
+                }
                 let mut buffer = self.state.take_buffer();
                 if buffer.is_empty() {
                     if matches!(self.state, State::RequestInProgress(_)) {
